@@ -383,7 +383,7 @@ def gen_schedule(rng: random.Random, tier: str):
         steps.append(tok(a, t))
         tw.step(t, a)
         last = t
-    flav = {str(c): rng.choice(["run", "import", "fork"]) for c in range(1, nproc + 1)}
+    flav = {str(c): rng.choice(FLAVOURS) for c in range(1, nproc + 1)}
     feat = tw.feat
     if "stale-first-item" in feat:
         kind = "handover-stale-first-item"
@@ -430,6 +430,9 @@ def parse_steps(steps):
     return out
 
 
+# how a child comes to life: fresh import + _bootstrap/run, inherited globals (fork) + at-fork hooks +
+# _bootstrap/run, late import; `-o`: its Process subclass overrides run() without super().run()
+FLAVOURS = ["run", "import", "fork", "run-o", "fork-o"]
 ONLINE_SCENARIOS = ("two-first-starts", "raising-bodies", "mix", "urwid-after-start", "late-import-then-start")
 ONLINE_QUICK = 300
 ONLINE_THOROUGH = 1200
@@ -437,8 +440,43 @@ DECO_QUICK = 60
 DECO_THOROUGH = 1500
 FSCHED_QUICK = 80
 FSCHED_THOROUGH = 800
-MP_QUICK = [("spawn", "ctx", 0), ("spawn", "default", 1)]
-MP_ALL = [(m, h, lz) for m in ("fork", "spawn", "forkserver") for h in ("default", "ctx") for lz in (0, 1)] + [("mixed", "ctx", 0), ("mixed", "ctx", 1)]
+# (start method, multiprocessing.Process | get_context().Process, late import, how the child's code is
+#  supplied: target= | subclass overriding run() | … calling super().run(), foreign wrappers on
+#  BaseProcess before the import)
+MP_QUICK = [("spawn", "ctx", 0, "target", 0), ("spawn", "default", 1, "target", 0),
+            ("fork", "default", 0, "run", 0), ("spawn", "default", 0, "run", 0),
+            ("spawn", "default", 0, "target", 1), ("spawn", "ctx", 0, "run", 1),
+            ("fork", "default", 0, "after", 0), ("fork", "ctx", 0, "after", 0)]
+MP_ALL = ([(m, h, lz, "target", 0) for m in ("fork", "spawn", "forkserver") for h in ("default", "ctx") for lz in (0, 1)]
+          + [("mixed", "ctx", 0, "target", 0), ("mixed", "ctx", 1, "target", 0)]
+          + [(m, h, 0, "run", 0) for m in ("fork", "spawn", "forkserver") for h in ("default", "ctx")]
+          + [(m, "default", 1, "run", 0) for m in ("spawn", "forkserver")]
+          + [(m, "default", 0, "runsuper", 0) for m in ("fork", "spawn", "forkserver")]
+          + [(m, "default", 0, "target", 1) for m in ("fork", "spawn", "forkserver")]
+          + [("spawn", "ctx", 0, "run", 1)]
+          + [(m, "default", 0, "after", 0) for m in ("fork", "spawn", "forkserver")])
+
+
+def mp_key(method, how, lazy, style="target", pre=0):
+    return (f"mp/{method}/{how}/{'lazy' if lazy else 'eager'}" + ("" if style == "target" else f"/{style}")
+            + ("/foreign-wrappers" if pre else ""))
+
+
+def mp_case(cfg, scale):
+    method, how, lazy, style, pre = cfg
+    extra = "" if (style == "target" and not pre) else f" {style} {pre}"
+    return Case(f"mp {method} {how} {lazy} {scale}{extra}", {"mp": [method, how, lazy, scale, style, pre]},
+                "real-mp-" + mp_key(*cfg)[3:].replace("/", "-"), True)
+
+
+def mp_what(j, method, how, lazy, style="target", pre=0):
+    sup = {"target": "children given as target=", "run": "children are Process subclasses overriding run() without super().run()",
+           "runsuper": "children are Process subclasses whose run() calls super().run()",
+           "after": "an empty child first, then main thread vs. one child, then two threads — nothing races with a start"}[style]
+    return (f"real multiprocessing ({method}, {'get_context().Process' if how == 'ctx' else 'multiprocessing.Process'}, "
+            f"term_image imported {'inside the child function' if lazy else 'at module level'}, {sup}"
+            + (", BaseProcess.start/run/_bootstrap instrumented with functools.wraps wrappers before the import" if pre else "")
+            + f"): {j['overlaps']} of {j['intervals']} synchronized calls overlap another one; first: {j['first']}")
 
 
 class C14(Property):
@@ -497,6 +535,8 @@ class C14(Property):
             f"def ttyLockSites : List String := {lean_list(f['ttyLockSites'])}\n"
             f"def moduleInitOrder : List String := {lean_list(f['moduleInitOrder'])}\n"
             f"def lockAliases : List String := {lean_list(f['lockAliases'])}\n"
+            f"def wrappedMethods : List String := {lean_list(f['wrappedMethods'])}\n"
+            f"def atForkHooks : List String := {lean_list(f['atForkHooks'])}\n"
             "end TIV.C14.Generated\n"
         )
         return {"TIV/C14/Generated.lean": body}
@@ -504,14 +544,12 @@ class C14(Property):
     # -- generator ----------------------------------------------------------------------
     def generate(self, rng: random.Random, tier: str):
         # real multiprocessing first: the model's prediction (theorem `mutex`) is "no overlap"
-        for method, how, lazy in (MP_QUICK if tier == "quick" else MP_ALL):
-            scale = 1 if tier == "quick" else 2
-            yield Case(f"mp {method} {how} {lazy} {scale}", {"mp": [method, how, lazy, scale]},
-                       f"real-mp-{method}-{how}-{'lazy' if lazy else 'eager'}", True)
+        for cfg in (MP_QUICK if tier == "quick" else MP_ALL):
+            yield mp_case(cfg, 1 if tier == "quick" else 2)
         # the racing schedule of Props.raceSched first, in its three child flavours
         race = ("c0 a0 s1.1 a1 a1 a1 a1 a1 a1 c2 a2 a2 a2 a2 a0 a0 a0 c2 a2 a2 a2 a2 w2 r d2 a2 a2 a2 r d2 a2 a2 a2 "
                 "a0 a0 a0 a0 a0").split()
-        for fl in ("run", "import", "fork"):
+        for fl in FLAVOURS:
             yield Case(sched_line([0, 0, 1], race, {"1": fl}),
                        {"procs": [0, 0, 1], "steps": race, "flav": {"1": fl}}, "handover-stale-first-item", True)
         # the REAL multi-step query functions over a virtual FIFO terminal, schedules generated online
@@ -564,7 +602,7 @@ class C14(Property):
                    "p_start": rng.choice([0.05, 0.2]), "maxdepth": rng.choice([1, 2, 3])}
             if scen == "mix" and rng.random() < 0.5:
                 fns = [rng.choice(["p", "p", "i", "w", "f"]) for _ in procs]
-        flav = {str(c): rng.choice(["run", "import", "fork"]) for c in range(1, nproc + 1)}
+        flav = {str(c): rng.choice(FLAVOURS) for c in range(1, nproc + 1)}
         flav.update(force_flav)
         r = self.worker().call({"op": "sgen", "procs": procs, "flav": flav, "seed": rng.randrange(1 << 30),
                                 "cfg": cfg, "maxsteps": rng.choice([40, 80, 120]), "fns": fns})
@@ -617,12 +655,13 @@ class C14(Property):
         if self._hangs >= 3:
             raise TimeoutError("3 schedules hung already; not trying further ones")
         if "mp" in d:
-            method, how, lazy, scale = d["mp"]
-            j, err = self.run_mp(method, how, lazy, scale)
+            method, how, lazy, scale = d["mp"][:4]
+            style, pre = (d["mp"] + ["target", 0])[4:6]
+            j, err = self.run_mp(method, how, lazy, scale, style, pre)
             if j is None:
                 raise RuntimeError(f"real multiprocessing run failed: {err}")
             self._mp[case.key()] = j
-            if j["intervals"] != j["expected"] or any(c != 0 for c in j["exitcodes"]):
+            if not j["overlaps"] and (j["intervals"] != j["expected"] or any(c != 0 for c in j["exitcodes"])):
                 raise RuntimeError(f"real multiprocessing run incomplete: {j}")
             return f"ok overlaps={j['overlaps']}"
         if "deco" in d:
@@ -660,13 +699,9 @@ class C14(Property):
         if "mp" in case.data:
             j = self._mp.get(case.key())
             if j and j["overlaps"]:
-                method, how, lazy, _ = case.data["mp"]
-                return Failure(
-                    f"mp/{method}/{how}/{'lazy' if lazy else 'eager'}",
-                    f"real multiprocessing ({method}, {'get_context().Process' if how == 'ctx' else 'multiprocessing.Process'}, "
-                    f"term_image imported {'inside the target function' if lazy else 'at module level'}): "
-                    f"{j['overlaps']} of {j['intervals']} synchronized calls overlap another one; first: {j['first']}",
-                    extra=j)
+                method, how, lazy = case.data["mp"][:3]
+                style, pre = (case.data["mp"] + ["target", 0])[4:6]
+                return Failure(mp_key(method, how, lazy, style, pre), mp_what(j, method, how, lazy, style, pre), extra=j)
             return None
         v = self._viol.get(case.key())
         if v:
@@ -685,13 +720,13 @@ class C14(Property):
         return None
 
     # -- real multiprocessing -------------------------------------------------------------
-    def run_mp(self, method, how, lazy, scale):
-        out = f"/tmp/c14_mp_{os.getpid()}_{method}_{how}_{lazy}.json"
+    def run_mp(self, method, how, lazy, scale, style="target", pre=0):
+        out = f"/tmp/c14_mp_{os.getpid()}_{method}_{how}_{lazy}_{style}_{pre}.json"
         try:
             os.unlink(out)
         except OSError:
             pass
-        rc, txt = run_on_pty([os.path.join(HERE, "c14_mp.py"), method, how, str(lazy), str(scale), out], timeout=75)
+        rc, txt = run_on_pty([os.path.join(HERE, "c14_mp.py"), method, how, str(lazy), str(scale), out, style, str(pre)], timeout=40 * scale)
         if rc is None:
             return None, "timeout"
         try:
@@ -703,7 +738,7 @@ class C14(Property):
 
     def extra_checks(self, rng, tier, ev):
         ev["coverage"]["real_multiprocessing"] = {
-            f"{j['method']}/{j['how']}/{'lazy' if j['lazy'] else 'eager'}": {k: j[k] for k in ("intervals", "overlaps", "processes", "nested", "lock_type")}
+            mp_key(j['method'], j['how'], j['lazy'], j.get('style', 'target'), j.get('pre', 0))[3:]: {k: j[k] for k in ("intervals", "overlaps", "processes", "nested", "lock_type")}
             for j in self._mp.values()}
         ev["coverage"]["worker_facts"] = self._facts
         ev["coverage"]["impl_seconds_by_kind"] = self._times
@@ -732,14 +767,11 @@ class C14(Property):
             if f:
                 f.case = c
                 return [f]
-        for method, how, lazy in MP_ALL:
-            j, err = self.run_mp(method, how, lazy, 1)
+        for cfg in MP_ALL:
+            method, how, lazy, style, pre = cfg
+            j, err = self.run_mp(method, how, lazy, 1, style, pre)
             if j and j["overlaps"]:
-                fails.append(Failure(
-                    f"mp/{method}/{how}/{'lazy' if lazy else 'eager'}",
-                    f"real multiprocessing ({method}, {how}, lazy={lazy}): {j['overlaps']} of {j['intervals']} "
-                    f"synchronized calls overlap; first: {j['first']}",
-                    case=Case(f"mp {method} {how} {lazy} 1", {"mp": [method, how, lazy, 1]}), extra=j))
+                fails.append(Failure(mp_key(*cfg), mp_what(j, *cfg), case=mp_case(cfg, 1), extra=j))
         if fails:
             return fails
         self._worker = None
